@@ -35,7 +35,8 @@ CHECKS = {
              "constructors; z3 shows every rejecting path contains no valid tuple; the accepting paths (exactly 81 / 36 / 9 / 6) "
              "are tallied against a symmetry-orbit oracle (equality and hash classes, 21 keys, multiplicity = class size, 3/3/15, "
              "Voigt table, string/int/2-index/4-index spellings, file-column spellings); the one-argument spellings given as numpy integers / numpy "
-             "strings agree with the plain ones (type twin).",
+             "strings agree with the plain ones (type twin); every 2-digit string over 0..9 and 4-digit string over 0..4 (0..9 thorough), each digit a "
+             "finite-domain symbol, is accepted exactly when all digits are valid indices and then equals the index spelling.",
         note="Trusted: executor + z3 feasibility answers (an 'unknown' is reported, never ignored); the oracle (orbits of the "
              "minor/major symmetries and the Voigt table quoted in the property). Indices outside -3..12 are outside the claim.",
         design="3/C10"),
@@ -64,7 +65,8 @@ CHECKS = {
              "and command-line-flag twins concrete; the residual refusal is stated as the misfit of the best tensor whether or not the table "
              "determines it (under-determined + redundant supplied sets); non-modulus columns pass through also when zero / below the drop "
              "tolerance; relation files with blank lines or upper-case component names; the empty supplied set (no modulus column) is refused with "
-             "the rank Warning; triclinic (known finding: never refuses).",
+             "the rank Warning; on the Calculator path (apply_symetry_on_elast_data) system, both flags and both tolerances -- finite-domain symbolic, "
+             "0 included -- reach fill_cij unchanged; a frame with row labels of its own gives the same outcome; triclinic (known finding: never refuses).",
         note="Trusted: exact-LSQ stub as the contract of numpy.linalg.lstsq; the twins (dtype, working directory, file path) are "
              "concrete runs, not solver results. Subsets of supplied components outside the listed families are outside the claim.",
         design="3/C09"),
@@ -125,7 +127,8 @@ CHECKS = {
              "values on every path of the approximate-equality task merging (equal / nearly equal axial strain fractions); no undefined value for "
              "temperature grids starting at 0 K, without a 0 K point (T_MIN > 0) and with the 0 K point not in first position; loading the QHA "
              "layer completes for every DT in 0.5..500 K and DELTA_P in 0.1..5 GPa (finite-domain symbolic values through the real loader) and whichever "
-             "single documented QHA setting the user leaves out (finite-domain symbolic index, real apply_default_config + loader); an interpolation order "
+             "single documented QHA setting the user leaves out (finite-domain symbolic index, real apply_default_config + loader); no undefined value "
+             "either when the heat capacity handed over is exactly 0 at 0 K; an interpolation order "
              "spelled 3.0 (a JSON integer) runs like 3 (twin).",
         note="The configuration sweep 'every schema-valid configuration x interpolator completes' is library behaviour (qha, scipy, LAPACK) "
              "and outside; numpy.exp is modelled by the listed axioms (each a true fact of a faithful exp); eigen-frame real-ness is a "
@@ -139,7 +142,7 @@ CHECKS = {
         text="Partial: (a) every pressure-base quantity, tensor entry and attribute spelling is V2P of exactly the matching volume-base "
              "quantity with the QHA pressure field and requested grid (for every implementation of v2p); (b) qha's interpolation kernel "
              "maps its own pressure field to the requested pressure, reproduces cubics exactly and returns a node's value at a node's "
-             "pressure (so P(T,V(T,P)) = P holds exactly on grid nodes), for every bracket with distinct nodes; (c) the range check raises ValueError iff min_T P[T,last] < max requested p on all explored paths, runs after "
+             "pressure (so P(T,V(T,P)) = P holds exactly on grid nodes), for every bracket with distinct nodes; (c) the range check raises ValueError iff min_T P[T,last] < max requested p on all explored paths (requested grid P_MIN + j*DELTA_P with symbolic P_MIN, DELTA_P and complete settings), runs after "
              "refine_grid and propagates.",
         note="'P(T,V(T,P)) = P to interpolation accuracy' between nodes and monotonicity of V(P) for arbitrary data are numerical-analysis "
              "statements and are not claimed. The bracket search (numba) is stubbed by enumeration.",
@@ -243,7 +246,8 @@ CHECKS = {
              "P = -grad(FIT(E))/grad(v) (spline-resampled in mode none); F = input energies (none) or the fit at the row's V; "
              "pressure-mode V and F are the same inverse interpolation applied to v and to the fit, rows at the requested pressures; moduli = "
              "fit of the table at the row's V; VRH and v_p, v_s, v_phi relations; the crystal-system option without a static table is a no-op; with "
-             "--delta-p-sample = 2 x --delta-p every second row of the pressure grid starting at p_min.",
+             "--delta-p-sample = 2 x --delta-p every second row of the pressure grid starting at p_min; the density column whenever a cell mass is known "
+             "(--cellmass without a static table included).",
         note="Grid of 4 points and 5 input volumes (the callback is uniform in these sizes, which is an argument, not a solver result); file "
              "parsing, table printing and kernel numerics outside; stage R runs the real command once per mode.",
         design="3/C18"),
